@@ -56,7 +56,7 @@ def _worker(args):
         callees = getattr(c, "callees", None) or getattr(mod, "CALLEES", {})
         if getattr(c, "lib", None):
             lib.update(c.lib)
-        res = verify.verify_function(prop, c, callees, lib, hooks=getattr(mod, "HOOKS", None))
+        res = verify.verify_function(prop, c, callees, lib, hooks=getattr(c, "hooks", None) or getattr(mod, "HOOKS", None))
         out["src"] = res.fs.describe()
         out["error"] = res.error
         out["paths"] = res.paths
